@@ -10,6 +10,8 @@ by the O(N) most-dissimilar search, every other entry following the strictly clo
 and both halves of a split non-empty.
 -/
 import BBProofs.RefPolicy
+import BBProofs.GenEq3
+import BBProofs.GenEq2
 
 namespace BB
 
@@ -75,5 +77,21 @@ theorem C07_valid (X : ExpTab) (cfg : Cfg) : (refPolicy X cfg).Valid := refPolic
 /-! Non-vacuity: a tie is resolved towards the first entry. -/
 example : (refPolicy { E := fun _ => 1, off := 0 } { thr := 1/2, bf := 2, merge := { crit := .diameter } }).route
     [[true, false], [true, false], [false, true]] [true, false] = 0 := by decide +kernel
+
+
+/-! ## The leaf step, for the code itself (`_BFSubcluster.merge_subcluster`, translated on this run) -/
+
+/-- code: at a leaf the nominee is merged into the chosen entry **iff the reference policy's `accept` says so** (the
+estimator's criterion object on the candidate summary formed in the narrowest width), in which case the entry becomes the
+model's merged cluster; otherwise the entry is untouched (and the caller appends the nominee as a new entry) -/
+theorem C07_code_leaf (expf : Rat → Rat) (cfg : Cfg) (c s : Clu) (child scent schild : PV)
+    (hc : CluOk c) (hs : CluOk s) (hlen : c.ls.length = s.ls.length) (hn : c.n + s.n < 2 ^ 53)
+    (hnew : SumOk (c.mergedSummary s)) (hold : SumOk c.summary) (hO : 1 ≤ c.n) :
+    BBGen._BFSubcluster_merge_subcluster expf (bufOf c) (PV.arr .u8 (pack c.cent)) child (PV.arr .big c.ids)
+        (bufOf s) scent schild (PV.arr .big s.ids) (PV.flt (some cfg.thr)) (objOf expf cfg.merge)
+      = if (refPolicy (tabOf expf) cfg).accept c s = true
+        then PV.bool true :: stateOf (c.merge s) child
+        else PV.bool false :: stateOf c child :=
+  gen_merge_subcluster expf cfg.merge cfg.thr c s child scent schild hc hs hlen hn hnew hold hO
 
 end BB
